@@ -82,6 +82,7 @@ func (d *driverCfg) spawn() (*worker, error) {
 	workerSerialMu.Unlock()
 	dir := filepath.Join(d.scratch, "w", strconv.Itoa(id))
 	self, _ := os.Executable()
+	os.MkdirAll(d.scratch, 0o755)
 	cmd := exec.Command(self, append([]string{"worker"}, d.workerArgs(dir)...)...)
 	cmd.Env = os.Environ()
 	if d.race {
